@@ -5,8 +5,11 @@ use std::sync::Once;
 
 #[cfg(curve25519_dalek_verif)]
 pub mod field;
+#[cfg(curve25519_dalek_verif)]
+pub mod consts;
 pub mod edwards;
 pub mod helpers;
+pub mod public_consts;
 pub mod scalar;
 pub mod scalarmul;
 #[cfg(curve25519_dalek_verif)]
@@ -53,6 +56,9 @@ fn dispatch(req: &Req) -> Out {
     if op.starts_with("sm.") {
         return scalarmul::exec(op, a);
     }
+    if op.starts_with("kp.") {
+        return public_consts::exec(op, a);
+    }
     #[cfg(curve25519_dalek_verif)]
     {
         if op.starts_with("fe.") {
@@ -60,6 +66,9 @@ fn dispatch(req: &Req) -> Out {
         }
         if op.starts_with("v2.") || op.starts_with("vi.") {
             return vector::exec(op, a);
+        }
+        if op.starts_with("k.") {
+            return consts::exec(op, a);
         }
     }
     Out::Unknown
